@@ -102,6 +102,13 @@ def build():
         "sweep": dict(decls=bz, nodes=[N("BuzzerSweep", name="bz", start_hz="start_hz", end_hz="end_hz", duration_ms="duration_ms", steps="steps")],
                       opaque=dict(o, start_hz="float", end_hz="float", duration_ms="float", steps="int")),
     }
+    # literal (constant-folded) frequencies: the emitter decides on the Python value at emit time, so the value classes None / 0 / 0.0 /
+    # negative / positive are separate fragments (a frequency <= 0 must never start a tone)
+    for lname, lit in (("zero_f", 0.0), ("zero_i", 0), ("neg", -5.0)):
+        specs["beep_lit_" + lname] = dict(decls=bz, nodes=[N("BuzzerBeep", name="bz", frequency=lit, on_ms="on_ms", off_ms="off_ms", times="times")],
+                                          opaque=dict(o, on_ms="float", off_ms="float", times="int"))
+        specs["tone_lit_" + lname] = dict(decls=bz, nodes=[N("BuzzerPlayTone", name="bz", frequency=lit, duration_ms="duration_ms")],
+                                          opaque=dict(o, duration_ms="float"))
     for m in MELODIES:
         specs["melody_" + m] = dict(decls=bz, nodes=[N("BuzzerMelody", name="bz", melody=m, tempo="tempo")], opaque=dict(o, tempo="float"))
     em = H.emit_all(specs)
@@ -167,6 +174,15 @@ def build():
                           f"implies({fexp} > 0, E == beep_trace(old(E), __pin, {HZ(fexp)}, trunc(on_ms), trunc(off_ms), times, times))",
                           f"implies({fexp} > 0 and times > 0, {LAST} == {fexp})"],
                  note=f"frequency source in the emitted text: {src_expr}")
+    for lname in ("zero_f", "zero_i", "neg"):
+        tr = info["beep_lit_" + lname]
+        reg.unit(tr["pyname"], FW, params=dict(tr["params"]), public=False,
+                 requires=PIN + DUR("on_ms") + DUR("off_ms") + ["0 <= times <= 32000", f"{LAST} < 65000", "__deff < 65000"], modifies=MOD,
+                 loops={0: {"inv": ["0 <= __redu_i <= __redu_times", "k == __redu_i", "__redu_times == times", "tones == old(tones)", "__redu_freq_target <= 0"]}},
+                 ensures=["tones == old(tones)"], note=f"beep with the literal frequency class '{lname}' (<= 0): no tone is started")
+        tr = info["tone_lit_" + lname]
+        reg.unit(tr["pyname"], FW, params=dict(tr["params"]), public=False, requires=PIN + DUR("duration_ms") + [f"{LAST} < 65000"], modifies=MOD,
+                 ensures=["tones == old(tones)"], note=f"play_tone with the literal frequency class '{lname}' (<= 0): no tone is started")
     # sweep
     F = lambda i: "(max(0, start_hz) + (max(0, end_hz) - max(0, start_hz)) * ite(local_steps == 1, 1.0, real(" + i + ") / (local_steps - 1)))"
     reg.unit(info["sweep"]["pyname"], FW, params=dict(info["sweep"]["params"]), public=False,
@@ -240,6 +256,20 @@ def extra_obligations(mods, tier, seed):
     out.append({"name": "C16/arms/getters-read-shadow-variables", "status": "discharged" if ok else "sat", "backend": "enum",
                 "where": "get_frequency/get_last_frequency/get_state are the shadow variables the fragments maintain", "time": 0.0,
                 "replay": {"cpp": cpp[-400:]}, "replay_confirmed": not ok})
+    # parser arms: a non-integer literal argument behaves like the same value in a variable (tone/delay trace on the firmware mock);
+    # the fragment contracts above take the IR node as given, this ties the node to the source text
+    import multiprocessing as mp
+    import contracts.c08 as c8
+    del c8.LITVAR_JOBS[:]
+    c8.spacing_and_literal_obligations(P)
+    jobs = [j for j in c8.LITVAR_JOBS if j[0].startswith("Buzzer.")]
+    with mp.Pool(8) as pool:
+        res = pool.map(c8._litvar_one, jobs, chunksize=1)
+    for name, verdict, detail, a, b in res:
+        okv = verdict in ("same", "rejected")
+        out.append({"name": f"C16/arms/{name}/literal-behaves-like-variable", "status": "discharged" if okv else "sat", "backend": "enum+fwsim",
+                    "where": f"{name}: literal and variable argument give the same tone/delay trace [{verdict}]", "time": 0.2,
+                    "replay": {"literal_script": a[-160:], "detail": detail}, "replay_confirmed": not okv})
     return out
 
 
